@@ -26,7 +26,8 @@ TForget   == IsEvent("forget")   /\ runs' = <<>> /\ UNCHANGED <<wlen, wok, wclos
 
 Init == WInit /\ l = 1
 TCloseX   == IsEvent("wclosex")  /\ WCloseX(E.ret, E.f)
-Next == TCloseX \/ TStart \/ TWrite \/ TEndChunk \/ TOption \/ TClose \/ TReadBack \/ TZck \/ TUnzck \/ TUnzckF \/ TToolF \/ TNoWrite \/ TRun \/ TRunX \/ TPair \/ TMinMax \/ TForget
+TAbort    == IsEvent("abort")    /\ WAbort
+Next == TAbort \/ TCloseX \/ TStart \/ TWrite \/ TEndChunk \/ TOption \/ TClose \/ TReadBack \/ TZck \/ TUnzck \/ TUnzckF \/ TToolF \/ TNoWrite \/ TRun \/ TRunX \/ TPair \/ TMinMax \/ TForget
 Spec == Init /\ [][Next]_tvars
 Accepted == /\ PrintT(<<"MATCHED", TLCGet("stats").diameter - 1, Len(TraceLog)>>)
             /\ TLCGet("stats").diameter - 1 = Len(TraceLog)
